@@ -54,8 +54,8 @@ CODES = {1: "image after repair differs from the model's", 2: "executed sequence
 def check_repair(ctx, runs=None, arb=None):
     """Runs the repair correspondence. Returns a dict for the caller's evidence (also stored in ctx.repair)."""
     quick = ctx.tier == "quick"
-    runs = runs if runs is not None else (24 if quick else 160)
-    arb = arb if arb is not None else (900 if quick else 9000)
+    runs = runs if runs is not None else (24 if quick else 400)
+    arb = arb if arb is not None else (900 if quick else 30000)
     ok, log, where = fw.coq_build(["recover"])
     ctx.oblige("full .vo build of coq/recover (make)", ok)
     if not ok:
@@ -70,7 +70,7 @@ def check_repair(ctx, runs=None, arb=None):
     assumptions = dict(closed_under_global_context=pc["closed"], axioms=pc["axioms"], file=pc["file"], theorems=len(pc["theorems"]))
 
     cases = ctx.harness("fixprobe", ["-runs", str(runs), "-arb", str(arb), "-probe-every", "4" if quick else "2",
-                                     "-entry", "80" if quick else "800"],
+                                     "-entry", "80" if quick else "2000"],
                         out_name="repair_cases.jsonl", timeout=1500)
     if cases is None:
         return None
@@ -153,6 +153,12 @@ def check_repair(ctx, runs=None, arb=None):
         for k, v in (c["dist"].get("status_mix") or {}).items():
             key = ("reachable " if c["kind"] == "reachable" else "arbitrary ") + k
             mix[key] = mix.get(key, 0) + v
+    def straight_to_end_with(c, what):
+        o = c.get("observed") or {}
+        return o.get("plan_status_after") in ("Completed", "Failed", "Stopped") and (o.get("running_left_mix") or {}).get(what, 0) > 0
+    live = [c for c in reach if c["nontrivial"]]
+    r2_like = [c for c in live if straight_to_end_with(c, "gaction")]
+    r3_like = [c for c in live if straight_to_end_with(c, "seq")]
     rep = dict(
         evaluations=len(cases),
         distinct_nontrivial=fw.distinct_nontrivial(cases),
@@ -163,6 +169,9 @@ def check_repair(ctx, runs=None, arb=None):
         branch_coverage={k: {"%d: %s" % (b, BRANCHES[k].get(b, "?")): n for b, n in sorted(v.items())} for k, v in cover.items()},
         branches_not_hit=missing,
         reachable_images=len(reach), real_runs=runs,
+        reachable_running_images_where_repair_goes_to_End_leaving_a_check_action_Running_R2=len(r2_like),
+        reachable_running_images_where_repair_goes_to_End_leaving_a_sequence_Running_R3=len(r3_like),
+        reachable_R2_R3_examples=[dict(id=c["id"], input=c["input"], after=c["observed"].get("after")) for c in (r2_like[:1] + r3_like[:1])],
         entry_points_observed_on_real_recoveries=fw.histogram(c["dist"]["probed"] for c in probed),
         entry_points_observed_on_recoveries_of_arbitrary_images=fw.histogram(
             "%s (plan %s after fixPlan)" % (c["dist"]["probed"] or "none seen", c["observed"]["plan_status_after"]) for c in arbent),
